@@ -288,20 +288,29 @@ def mulOp (c : Cfg) (op : Op) (o : Out) (a : Reg) (b : Arg) : Res :=
 
 /-! ### MulThenAdd / MulRelinThenAdd -/
 
-/-- `mulRelinThenAdd` (evaluator.go:1289) with accumulator `r` -/
+def accDegree (relin : Bool) (a b r : Reg) : Nat :=
+  if a.degree = 1 ∧ b.degree = 1 then (if relin then max 1 r.degree else 2) else max a.degree r.degree
+
+/-- `mulRelinThenAdd` (evaluator.go:1289) with accumulator `r`.  (`if r0 != 1 { MulScalar(c00, r0) }`
+    is modelled by an unconditional multiplication: multiplying reduced residues by 1 is the identity.) -/
 def accReg (c : Cfg) (relin : Bool) (a b r : Reg) (level : Nat) : Res :=
-  let t := c.t
-  if a.degree = 0 ∧ b.degree ≠ 0 then .error .outside else
-  let cc := a.degree = 1 ∧ b.degree = 1
-  if cc ∧ relin ∧ ¬ c.rlk then .error .err else
-  let degree := if cc then (if relin then max 1 r.degree else 2) else max a.degree r.degree
-  let target := a.scale * b.scale % t
-  let (r0, r1) := if r.scale = target then (1, 1) else matchScales t target r.scale
-  let acc := if r.scale = target then r.slots else vscale t r1 r.slots
-  let sc := if r.scale = target then r.scale else r.scale * r1 % t
-  let prod := vmul t a.slots b.slots
-  let prod := if r0 = 1 then prod else vscale t r0 prod
-  ok1 { level := level, degree := degree, scale := sc, slots := vadd t acc prod }
+  if a.degree = 0 ∧ b.degree ≠ 0 then .error .outside
+  else if (a.degree = 1 ∧ b.degree = 1) ∧ relin = true ∧ c.rlk = false then .error .err
+  else if r.scale = a.scale * b.scale % c.t then
+    ok1 { level := level, degree := accDegree relin a b r, scale := r.scale,
+          slots := vadd c.t r.slots (vmul c.t a.slots b.slots) }
+  else
+    ok1 { level := level, degree := accDegree relin a b r,
+          scale := r.scale * (matchScales c.t (a.scale * b.scale % c.t) r.scale).2 % c.t,
+          slots := vadd c.t (vscale c.t (matchScales c.t (a.scale * b.scale % c.t) r.scale).2 r.slots)
+                    (vscale c.t (matchScales c.t (a.scale * b.scale % c.t) r.scale).1 (vmul c.t a.slots b.slots)) }
+
+/-- `op1 *= opOut.Scale / op0.Scale` when the scales differ (evaluator.go:1176–1181) -/
+def accScalar (t sa so z : Nat) : Nat :=
+  if sa = so then z else z * (inv t sa * so % t) % t
+
+def accPtScale (t sa so : Nat) : Nat :=
+  if sa = so then 1 % t else inv t sa * so % t
 
 def accOp (c : Cfg) (relin : Bool) (o : Out) (a : Reg) (b : Arg) : Res :=
   let t := c.t
@@ -316,18 +325,15 @@ def accOp (c : Cfg) (relin : Bool) (o : Out) (a : Reg) (b : Arg) : Res :=
         -- `opOut.Resize(op0.Degree(), opOut.Level())` (evaluator.go:1170): limbs above op0's level are
         -- not updated; a degree-2 accumulator loses its third limb
         if a.level < r.level ∨ r.degree > a.degree then .error .outside else
-        let z := b.scalar t
-        let z := if a.scale = r.scale then z else z * (inv t a.scale * r.scale % t) % t
         ok1 { level := r.level, degree := a.degree, scale := r.scale,
-              slots := vadd t r.slots (vscale t z a.slots) }
+              slots := vadd t r.slots (vscale t (accScalar t a.scale r.scale (b.scalar t)) a.slots) }
       else if b.isVec then
         if r.degree > a.degree then .error .outside else
         match b.vec? t c.n with
         | Option.none => .error .err
         | some v =>
           let level := min a.level r.level
-          let ps := if a.scale = r.scale then 1 % t else inv t a.scale * r.scale % t
-          let pt := ptOf level ps t v
+          let pt := ptOf level (accPtScale t a.scale r.scale) t v
           if ¬ binChk a pt then .error .err else
           accReg c false a pt { r with degree := a.degree } level
       else .error .err)
@@ -381,5 +387,61 @@ def val (t : Nat) (r : Reg) : List Nat := vscale t (inv t r.scale) r.slots
 /-- register from what the harness observes (decoded slots at the recorded scale) -/
 def Reg.ofDecoded (t level degree scale : Nat) (v : List Nat) : Reg :=
   { level := level, degree := degree, scale := scale, slots := vscale t scale v }
+
+/-! ### straight-line programs over a register file -/
+
+inductive ArgRef
+  | idx (j : Nat) | imm (b : Arg)
+  deriving Repr, Inhabited
+
+inductive OutRef
+  | new (dst : Nat) | inp | into (j : Nat)
+  deriving Repr, Inhabited
+
+structure Instr where
+  op  : Op
+  a   : Nat
+  b   : ArgRef
+  out : OutRef
+  deriving Repr, Inhabited
+
+def Instr.arg (rf : List Reg) (i : Instr) : Option Arg :=
+  match i.b with
+  | .idx j => if j = i.a then some Arg.self else (rf[j]?).map Arg.reg
+  | .imm (.reg _) => none        -- registers are referenced by index
+  | .imm .self => none
+  | .imm b => some b
+
+def Instr.outSpec (rf : List Reg) (i : Instr) : Option (Out × Nat) :=
+  match i.out with
+  | .new d => some (Out.new, d)
+  | .inp => some (Out.inp, i.a)
+  | .into j => (rf[j]?).map fun r => (Out.into r, j)
+
+/-- the two call patterns whose result the library does not define as a function of the messages at
+    the recorded scale: a scalar operand with an output whose scale differs from op0's (the scalar
+    branches never assign opOut.Scale), and `Rescale` on a scale-invariant evaluator (a no-op). -/
+def guardOK (c : Cfg) (op : Op) (o : Out) (a : Reg) (b : Arg) : Bool :=
+  (!b.isScalar || (outReg c o a a.degree a.level).scale == a.scale || op == .mta || op == .mrta)
+  && (op != .rescale || !c.si) && op != .matchSL
+
+/-- one instruction: operands are read from the register file, the result is stored at `dst` -/
+def exec (c : Cfg) (rf : List Reg) (i : Instr) : Except Err (List Reg) :=
+  match rf[i.a]?, i.arg rf, i.outSpec rf with
+  | some a, some b, some (o, dst) =>
+    if guardOK c i.op o a b then
+      match step c i.op o a b with
+      | .ok [r] => .ok (rf.set dst r)
+      | .ok _ => .error .outside
+      | .error e => .error e
+    else .error .outside
+  | _, _, _ => .error .err
+
+def run (c : Cfg) : List Instr → List Reg → Except Err (List Reg)
+  | [], rf => .ok rf
+  | i :: is, rf =>
+    match exec c rf i with
+    | .ok rf' => run c is rf'
+    | .error e => .error e
 
 end Lattigo.BGV
